@@ -2,14 +2,19 @@
    worker ids: SevenZipFile._real_get_contents / _get_fileinfo_sizes (py7zr.py
    430-527, 738-760), the id arithmetic of ArchiveFileList(offset) used by the
    multi-folder paths of Worker.extract (1288-1339), and the kind decision of
-   _extract (is_directory from the attribute word).  Definitions first. *)
+   _extract (ArchiveFile.is_directory: for an entry without data from its EmptyFile bit -- the
+   key "emptyfile" FilesInfo._read stores with the entry --, for an entry with data from the
+   attribute word).  Definitions first. *)
 From P7 Require Import Prelude PyPrims Number Header Spec.
 Open Scope Z_scope.
 
 Record iplan := mkIPlan {
   ip_name : option (list Z); ip_kind : Z; ip_folder : Z; ip_offset : Z; ip_size : Z; ip_crc : option Z;
   ip_mtime : option Z; ip_attr : option Z;
-  ip_id : Z          (* the id under which the worker looks this member's output up *) }.
+  ip_id : Z;         (* the id under which the worker looks this member's output up *)
+  (* the two keys of the entry's dict ArchiveFile.is_directory reads: "emptystream", and "emptyfile"
+     (false where the key is absent: entries with data, entries added by a write session) *)
+  ip_emptystream : bool; ip_emptyfile : bool }.
 
 Definition attr_is_dir (a : option (option Z)) : bool :=
   match a with Some (Some v) => negb (Z.land v 16 =? 0) | _ => false end.
@@ -41,16 +46,30 @@ Fixpoint skip_zero (fuel : nat) (nums : list Z) (folder : Z) : Z :=
            else folder
   end.
 
-Fixpoint assign_loop (multi : bool) (files : list fileent) (fid : Z)
+(* ArchiveFile.is_directory as a kind (0 data member, 1 empty file, 2 directory):
+     if self._get_property("emptystream"): return not self._get_property("emptyfile")
+     return self._test_attribute(FILE_ATTRIBUTE_DIRECTORY)
+   `emptyfile`: the entry's "emptyfile" key (FilesInfo._read: f["emptyfile"] = next(flags, False) for the
+   empty-stream entries in order; an absent key reads as None, i.e. as false) *)
+Definition entry_kind (e : fileent) (emptyfile : bool) : Z :=
+  if e_emptystream e then (if emptyfile then 1 else 2)
+  else if attr_is_dir (e_attr e) then 2 else 0.
+
+(* the number of entries without data = the number of EmptyFile bits a header graph holds *)
+Definition nempty (files : list fileent) : nat := length (filter e_emptystream files).
+
+(* efl: the EmptyFile bits not yet handed out (h_emptyfiles: one per empty-stream entry, in order; `hd false`
+   is next(flags, False)) *)
+Fixpoint assign_loop (multi : bool) (files : list fileent) (efl : list bool) (fid : Z)
          (nums sizes : list Z) (dd : list bool) (dg : list Z)
          (folder outstreams input : Z) (fstats : list (Z * fstat)) (nfolders : Z) : res (list iplan) :=
   match files with
   | [] => Ok []
   | e :: r =>
-      let kind_of := fun (empty : bool) => if attr_is_dir (e_attr e) then 2 else if empty then 1 else 0 in
       if e_emptystream e then
-        do rest <- assign_loop multi r (fid + 1) nums sizes dd dg folder outstreams input fstats nfolders;
-        Ok (mkIPlan (e_name e) (kind_of true) (-1) 0 0 None (flat_opt (e_mtime e)) (flat_opt (e_attr e)) fid :: rest)
+        do rest <- assign_loop multi r (tl efl) (fid + 1) nums sizes dd dg folder outstreams input fstats nfolders;
+        Ok (mkIPlan (e_name e) (if hd false efl then 1 else 2) (-1) 0 0 None (flat_opt (e_mtime e)) (flat_opt (e_attr e)) fid
+                    true (hd false efl) :: rest)
       else
         (* a folder without sub-streams is stepped over (only while no file of the current folder was seen) *)
         let folder := if input =? 0 then skip_zero (length nums) nums folder else folder in
@@ -62,13 +81,24 @@ Fixpoint assign_loop (multi : bool) (files : list fileent) (fid : Z)
         do g <- nthZ dg outstreams;
         let '(fstats', old) := upd_fstat fstats folder fid size in
         let id := fid in    (* the entry's own index is kept with it in the per-folder list *)
-        let p := mkIPlan (e_name e) (kind_of false) folder (fs_bytes old) size (if d then Some g else None)
-                         (flat_opt (e_mtime e)) (flat_opt (e_attr e)) id in
+        let p := mkIPlan (e_name e) (if attr_is_dir (e_attr e) then 2 else 0) folder (fs_bytes old) size
+                         (if d then Some g else None) (flat_opt (e_mtime e)) (flat_opt (e_attr e)) id false false in
         let input' := input + 1 in
         do rest <- (if n <=? input'
-                    then assign_loop multi r (fid + 1) nums sizes dd dg (folder + 1) (outstreams + 1) 0 fstats' nfolders
-                    else assign_loop multi r (fid + 1) nums sizes dd dg folder (outstreams + 1) input' fstats' nfolders);
+                    then assign_loop multi r efl (fid + 1) nums sizes dd dg (folder + 1) (outstreams + 1) 0 fstats' nfolders
+                    else assign_loop multi r efl (fid + 1) nums sizes dd dg folder (outstreams + 1) input' fstats' nfolders);
         Ok (p :: rest)
+  end.
+
+(* the entries of a header without main streams: no folder, no size; the kind as above *)
+Fixpoint nostream_plans (files : list fileent) (efl : list bool) (fid : Z) : list iplan :=
+  match files with
+  | [] => []
+  | e :: r =>
+      let ef := if e_emptystream e then hd false efl else false in
+      mkIPlan (e_name e) (entry_kind e ef) (-1) 0 0 None (flat_opt (e_mtime e)) (flat_opt (e_attr e)) fid
+              (e_emptystream e) ef
+      :: nostream_plans r (if e_emptystream e then tl efl else efl) (fid + 1)
   end.
 
 (* [x.unpacksizes[-1] for x, n in zip(folders, nums) for _ in range(n)]: the sizes when there is no SIZE record *)
@@ -111,10 +141,7 @@ Definition impl_plans (h : header) : res (list iplan) :=
       match h_streams h with
       | None =>
           (* no main streams: every non-empty entry hits `folders is not None` = False -> treated as empty *)
-          Ok (map (fun '(i, e) =>
-                     mkIPlan (e_name e) (if attr_is_dir (e_attr e) then 2 else if e_emptystream e then 1 else 0)
-                             (-1) 0 0 None (flat_opt (e_mtime e)) (flat_opt (e_attr e)) i)
-                  (py_enumerate files))
+          Ok (nostream_plans files (h_emptyfiles h) 0)
       | Some st =>
           match si_folders st, si_pack st with
           | Some folders, Some _ =>
@@ -124,7 +151,7 @@ Definition impl_plans (h : header) : res (list iplan) :=
                            | Some sz => Ok sz
                            | None => last_sizes folders (s_nums sub)
                            end);
-              assign_loop (negb (zlen folders =? 1)) files 0 (s_nums sub) sizes
+              assign_loop (negb (zlen folders =? 1)) files (h_emptyfiles h) 0 (s_nums sub) sizes
                           (Header.s_digestsdefined sub) (Header.s_digests sub) 0 0 0 [] (zlen folders)
           | _, _ => Err EOther                     (* AttributeError on None *)
           end
@@ -160,7 +187,8 @@ Definition t_plan (p : plan) : tree :=
       t_opt TI (pl_crc p); t_opt TI (pl_mtime p); t_opt TI (pl_attr p)].
 Definition t_iplan (p : iplan) : tree :=
   TL [t_opt (fun n => TL (map TI n)) (ip_name p); TI (ip_kind p); TI (ip_folder p); TI (ip_offset p); TI (ip_size p);
-      t_opt TI (ip_crc p); t_opt TI (ip_mtime p); t_opt TI (ip_attr p); TI (ip_id p)].
+      t_opt TI (ip_crc p); t_opt TI (ip_mtime p); t_opt TI (ip_attr p); TI (ip_id p);
+      t_bool (ip_emptystream p); t_bool (ip_emptyfile p)].
 
 From P7 Require Import HeaderCodec.
 
